@@ -27,8 +27,9 @@ What this file adds is the *keying* and the two ways a summary is produced:
   drawdown generators of every entry).
 
 `FnvIndexMap`s are lists addressed by position (`InstrumentIndex` / `AssetIndex` = position, C11); an
-index out of range panics in the code — here the list is left unchanged, the driver prints `panic`, the
-theorems carry `i < n` / `a < m`. `Decimal` is exact `Rat`, times are `Int` milliseconds, `Decimal::sqrt`
+index out of range panics in the code — the total step functions leave the list unchanged; the CHECKED
+runs at the end of this file (`Ev.panics`, `stepChecked`, `engineSummaryChecked`, …) return `none`
+there, they are what the drivers run (`panic`), and `Props/C16K.lean` §7 states exactly when that happens. `Decimal` is exact `Rat`, times are `Int` milliseconds, `Decimal::sqrt`
 is the parameter `f` exactly as in C16M. The summary-level clock (`time_engine_start`,
 `time_engine_now`) is modelled on the direct path (it is set by `init` and moved by the `update_from_*`
 calls); on the engine path both are read from the engine clock (`meta.time_start`, `self.time()`:
@@ -326,5 +327,90 @@ def projAsset (s : AssetSheet) : TearSheet.TearSheetAsset := ⟨s.balanceEnd⟩
 def projEv : Ev → TearSheet.Ev
   | .position i p => .position i p.closed
   | .balance a s => .balance a s
+
+/-! ## Where the code panics — the checked runs
+
+The step functions above are total: an event for an instrument / asset index outside the maps is
+IGNORED (`TearSheet.modifyAt` leaves the list as it is) and a closed position with a zero cost of
+investment goes on with `pnl / 0 = 0`. The code panics in both situations:
+* engine path — `InstrumentStates::instrument_index_mut` / `AssetStates::asset_index_mut`
+  (`engine/state/instrument/mod.rs:73-81`, `asset/mod.rs:43-48`: "Panics if … does not exist",
+  `get_index_mut(..).unwrap_or_else(|| panic!(..))`);
+* direct path — `InstrumentTearSheetManager::instrument_mut` / `AssetTearSheetManager::asset_mut` of
+  `TradingSummaryGenerator` (`summary/mod.rs:117-142`, same `unwrap_or_else(|| panic!(..))`);
+* both — `calculate_pnl_return` (`Metrics.Exit.panics`, C16M).
+The definitions below make the panic an explicit outcome (`none`); the drivers run them and print
+`panic` exactly when they return `none`; `Props/C16K.lean` §7 states when that is and what the summary
+is otherwise. (`Decimal` range panics are outside the model: DESIGN §3.) -/
+
+/-- Would the code panic on this event, with `n` instruments and `m` assets in the maps? Unknown key,
+or zero cost of investment. -/
+def Ev.panics (n m : Nat) : Ev → Bool
+  | .position i p => decide (n ≤ i) || p.panics
+  | .balance a _ => decide (m ≤ a)
+
+/-- … judged against the maps the state actually holds. -/
+def EngState.panicsOn (s : EngState) (ev : Ev) : Bool :=
+  ev.panics s.instruments.length s.assets.length
+
+/-- `EngineState::update_from_account` with the panic explicit. -/
+def EngState.stepChecked (f : Rat → Rat) (s : EngState) (ev : Ev) : Option EngState :=
+  if s.panicsOn ev then none else some (s.step f ev)
+
+def EngState.runChecked (f : Rat → Rat) : EngState → List Ev → Option EngState
+  | s, [] => some s
+  | s, ev :: evs =>
+    match s.stepChecked f ev with
+    | none => none
+    | some s' => EngState.runChecked f s' evs
+
+def SummaryGen.panicsOn (g : SummaryGen) (ev : Ev) : Bool :=
+  ev.panics g.instruments.length g.assets.length
+
+/-- `TradingSummaryGenerator::update_from_position` / `update_from_balance` with the panic explicit. -/
+def SummaryGen.stepChecked (f : Rat → Rat) (g : SummaryGen) (ev : Ev) : Option SummaryGen :=
+  if g.panicsOn ev then none else some (g.step f ev)
+
+def SummaryGen.runChecked (f : Rat → Rat) : SummaryGen → List Ev → Option SummaryGen
+  | g, [] => some g
+  | g, ev :: evs =>
+    match g.stepChecked f ev with
+    | none => none
+    | some g' => SummaryGen.runChecked f g' evs
+
+/-- `engineSummary` with the panic explicit: `none` = the engine panicked on one of the events. -/
+def engineSummaryChecked (f : Rat → Rat) (t0 : Int) (n m : Nat) (rf : Rat) (start now : Int)
+    (iv : Interval) (evs : List Ev) : Option Summary :=
+  ((EngState.init t0 n m).runChecked f evs).map fun s =>
+    ((SummaryGen.init rf start now s).generate f iv).2
+
+/-- `directSummary` with the panic explicit. -/
+def directSummaryChecked (f : Rat → Rat) (t0 : Int) (n m : Nat) (rf : Rat) (iv : Interval)
+    (evs : List Ev) : Option Summary :=
+  ((SummaryGen.init rf t0 t0 (EngState.init t0 n m)).runChecked f evs).map fun g =>
+    (g.generate f iv).2
+
+/-- Interleaved requests, direct path, with the panic explicit (a `generate` never panics). -/
+def SummaryGen.execChecked (f : Rat → Rat) : SummaryGen → List Op → Option (SummaryGen × List Summary)
+  | g, [] => some (g, [])
+  | g, .ev e :: ops =>
+    match g.stepChecked f e with
+    | none => none
+    | some g' => SummaryGen.execChecked f g' ops
+  | g, .gen iv :: ops =>
+    let r := g.generate f iv
+    (SummaryGen.execChecked f r.1 ops).map fun rest => (rest.1, r.2 :: rest.2)
+
+/-- Interleaved requests, engine path, with the panic explicit. -/
+def EngState.execChecked (f : Rat → Rat) (rf : Rat) (start now : Int) :
+    EngState → List Op → Option (EngState × List Summary)
+  | s, [] => some (s, [])
+  | s, .ev e :: ops =>
+    match s.stepChecked f e with
+    | none => none
+    | some s' => EngState.execChecked f rf start now s' ops
+  | s, .gen iv :: ops =>
+    (EngState.execChecked f rf start now s ops).map fun rest =>
+      (rest.1, ((SummaryGen.init rf start now s).generate f iv).2 :: rest.2)
 
 end BarterModel.KeyedSummary
